@@ -20,10 +20,20 @@ MC_BaseCalls == <<
     Call("Fn", 2, 0, "sin", NoLit, 0, 0, 0, ""),
     Call("Sum", 8, 0, "", NoLit, 0, 0, 0, ""),
     Call("Norm", 2, 0, "", NoLit, 2, 0, 0, ""),
-    Call("Dot", 2, 2, "", NoLit, 0, 0, 0, "")
+    Call("Dot", 2, 2, "", NoLit, 0, 0, 0, ""),
+    \* a vector declared with a positive lower bound: the callables must still be total (bounds are mutable, and several
+    \* solver methods evaluate outside them)
+    Call("MkVec", 0, 0, "continuous", B(Q(1,2), NoneQ), 2, 0, 0, "z"),
+    Call("Fn", 12, 0, "log", NoLit, 0, 0, 0, ""),
+    Call("Sum", 13, 0, "", NoLit, 0, 0, 0, ""),
+    Call("Fn", 12, 0, "sqrt", NoLit, 0, 0, 0, ""),
+    Call("Sum", 15, 0, "", NoLit, 0, 0, 0, "")
   >>
-MC_AllNames == {<<"s">>, <<"t">>, <<"x", 0>>, <<"x", 1>>}
+MC_AllNames == {<<"s">>, <<"t">>, <<"x", 0>>, <<"x", 1>>, <<"z", 0>>, <<"z", 1>>}
 MC_En == {"SBin", "SBinLit", "Fn", "VFn", "VBinLit", "Sum", "Norm", "Dot", "Index"}
+MC_EnNeg == MC_En \cup {"SNeg"}      \* C17 uses this instance too: negated reductions (what maximize() hands to the Hessian compiler)
+MC_WantHV == {"D", "H", "V"}
+MC_NoSing == {}
 MC_ObjCands == {}
 MC_Stages == <<>>
 MC_FinalEn == {}
